@@ -367,6 +367,24 @@ func c09Bases() []c09Base {
 			}
 			return k.pets.Create(ctx, world.NewRec("pets", "#t1").With("label", "L").With("owner", "#p1x"))
 		}},
+		{"three people (one id 70 bytes long) in o1 sharing role1, all linked to l1 and to a place with a 70-byte id", func(k *kitchen, ctx boltz.MutateContext) error {
+			if err := common(k, ctx); err != nil {
+				return err
+			}
+			longP, longL := "#p1x"+strings.Repeat("y", 66), "#l1"+strings.Repeat("z", 67)
+			if err := k.places.Create(ctx, world.NewRec("places", longL).With("label", "L")); err != nil {
+				return err
+			}
+			for i, id := range []string{"#p1", "#p1x", longP} {
+				if err := person(k, ctx, []string{"people", "mgr", "prof"}[i], id, []string{"NameA", "NameB", "NameC"}[i], []string{"role1"}, &o1); err != nil {
+					return err
+				}
+				if err := k.lp.AddLinks(ctx.Tx(), id, "#l1", longL); err != nil {
+					return err
+				}
+			}
+			return k.pets.Create(ctx, world.NewRec("pets", "#t1").With("label", "L").With("owner", longP))
+		}},
 		{"sparse: p1{NameA} only (no org, no roles, no links, no pets)", func(k *kitchen, ctx boltz.MutateContext) error {
 			if err := common(k, ctx); err != nil {
 				return err
@@ -442,7 +460,7 @@ func C09(tier string) int {
 	rep := report.New("C09", tier, "model_checking")
 	thorough := tier != "quick"
 	rep.Assume("corruptions are raw bucket edits of the supported classes on three base states built through the API; clean-state soundness is checked on every reachable state of the kitchen-sink exploration")
-	rep.Set("rule", "(a) BFS over the kitchen-sink schema: on every reachable state check-only and fix runs must report nothing and change nothing; (b) 3 base states x ALL subsets of size <= 2 (thorough: 3) of 27 corruption atoms, applied in an earlier transaction and in the same transaction as the fix: check-only reports every item of an independent reference diff and leaves the file unchanged; fix repairs to the reference-repaired image; re-check reports only the unfixable conflicts")
+	rep.Set("rule", "(a) BFS over the kitchen-sink schema: on every reachable state check-only and fix runs must report nothing and change nothing; (b) 4 base states (one with three people and 70-byte ids) x ALL subsets of size <= 2 (thorough: 3) of 27 corruption atoms, applied in an earlier transaction and in the same transaction as the fix: check-only reports every item of an independent reference diff and leaves the file unchanged; fix repairs to the reference-repaired image; re-check reports only the unfixable conflicts")
 
 	// ---- (a) soundness on healthy reachable states
 	k := newKitchen("integrity soundness", kFeat{orgs: true, places: true, pets: true, rc: true, maxCount: 1})
